@@ -13,8 +13,8 @@ separately (unit()).
 * Disc / ball (c, r), r > 0  : nu * r == p - c   (the radial unit vector, stated without
                                division or square root).
 * Convex polygon with corners v_0..v_{m-1} (any orientation), centroid g, edge i from
-  a=v_i to b=v_{i+1}, e=b-a, unnormalised outward normal n_i = the perpendicular of e
-  pointing away from g:
+  a=v_i to b=v_{i+1}, e=b-a, unnormalised outward normal n_i = +(e_y,-e_x) if the corners run
+  counter-clockwise (cross(e_0,e_1) > 0), -(e_y,-e_x) if clockwise:
     - p in the open interior of edge i, farther than `tau` (edge parameter) from both ends:
       nu is THE unit vector perpendicular to the edge pointing away from the polygon:
       nu.e == 0  and  nu.(g - p) < 0        (together with nu.nu == 1);
@@ -70,27 +70,25 @@ def ball_claims(c, r, p, nu, L, tol=1e-6):
 
 
 def polygon_frame(corners):
-    """per edge i: (a, e, n) with n the unnormalised outward normal (polynomial in the corners)"""
+    """-> (m*centroid, orientation, [(a, e, r)] per edge a->b: e = b-a, r = (e_y, -e_x) the right-hand
+    perpendicular).  orientation = cross(e_0, e_1): > 0 iff the corners run counter-clockwise (the polygon is
+    convex, so every corner turns the same way); the outward normal of edge i is then +r_i, else -r_i."""
     m = len(corners)
     g = [dot([c[0] for c in corners], [1] * m), dot([c[1] for c in corners], [1] * m)]  # m * centroid (no division)
     out = []
     for i in range(m):
         a, b = corners[i], corners[(i + 1) % m]
         e = [b[0] - a[0], b[1] - a[1]]
-        # the centroid g/m lies to the left of a->b iff cross(e, g - m*a) > 0; the outward side is then the right one,
-        # whose perpendicular is (e_y, -e_x)
-        side = cross2(e, [g[0] - m * a[0], g[1] - m * a[1]])
-        n = [e[1] * side, -e[0] * side]
-        out.append((a, e, n))
-    return g, out
+        out.append((a, e, [e[1], -e[0]]))
+    return g, cross2(out[0][1], out[1][1]), out
 
 
 def polygon_claims(corners, p, nu, L, tau=2e-4, tol=1e-6):
-    g, fr = polygon_frame(corners)
+    g, orient, fr = polygon_frame(corners)
     m = len(fr)
     tau = L.num(tau)
     on, inner, near_start, near_end = [], [], [], []
-    for a, e, n in fr:
+    for a, e, r in fr:
         w = [p[0] - a[0], p[1] - a[1]]
         ee, s = dot(e, e), dot(w, e)
         line = L.eq(cross2(e, w), 0)
@@ -99,15 +97,19 @@ def polygon_claims(corners, p, nu, L, tau=2e-4, tol=1e-6):
         near_start.append(L.And(line, L.le(0, s), L.le(s, tau * ee)))
         near_end.append(L.And(line, L.le((1 - tau) * ee, s), L.le(s, ee)))
     gp = [g[0] - m * p[0], g[1] - m * p[1]]  # m * (centroid - p)
+    ccw, cw = L.gt(orient, 0), L.lt(orient, 0)
     edge, step, cone = [], [], []
-    for i, (a, e, n) in enumerate(fr):
+    for i, (a, e, r) in enumerate(fr):
+        # open edge interior: THE outward unit normal of the edge (with nu.nu == 1 claimed separately)
         edge.append(L.Implies(inner[i], L.And(L.eq(dot(nu, e), 0, tol), L.lt(dot(nu, gp), 0))))
-        step.append(L.Implies(on[i], L.gt(dot(nu, n), 0)))
-        j = (i + 1) % m  # corner b = start of edge j
-        nj = fr[j][2]
-        x = cross2(n, nj)
+        # anywhere on the closed edge: a step against nu enters the open half-plane of this edge
+        step.append(L.Implies(on[i], L.And(L.Implies(ccw, L.gt(dot(nu, r), 0)), L.Implies(cw, L.lt(dot(nu, r), 0)))))
+        # corner zone of the vertex v where edge i ends and edge j starts: nu in the normal cone
+        # N(v) = {nu : nu.(x - v) <= 0 for all x in the polygon} = {nu.(-e_i) <= 0, nu.e_j <= 0} (convexity)
+        j = (i + 1) % m
+        ej = fr[j][1]
         zone = L.Or(near_end[i], near_start[j])
-        cone.append(L.Implies(zone, L.And(L.ge(cross2(nu, nj) * x, 0), L.ge(cross2(n, nu) * x, 0))))
+        cone.append(L.Implies(zone, L.And(L.ge(dot(nu, e), 0), L.le(dot(nu, ej), 0))))
     return [("edge_interior_is_outward_edge_normal", L.And(*edge)),
             ("step_against_normal_enters", L.And(*step)),
             ("corner_zone_in_normal_cone", L.And(*cone))]
@@ -116,7 +118,7 @@ def polygon_claims(corners, p, nu, L, tau=2e-4, tol=1e-6):
 def polygon_on_edges(corners, p, L):
     """per edge: p lies on the closed segment"""
     out = []
-    for a, e, n in polygon_frame(corners)[1]:
+    for a, e, r in polygon_frame(corners)[2]:
         w = [p[0] - a[0], p[1] - a[1]]
         ee, s = dot(e, e), dot(w, e)
         out.append(L.And(L.eq(cross2(e, w), 0), L.le(0, s), L.le(s, ee)))
